@@ -724,3 +724,27 @@ def g15(ctx: Ctx):
     errs = list(getattr(I, "node_attr_errors", []))
     ctx.ob("visitors", not errs, "" if not errs else "; ".join(f"attribute `.{a}` is read from the parse node of `{d}`" + (f" (text {sorted(l)[:4]})" if l else "") for d, a, l in errs[:4]) + ": the node was not converted into a construct, conversion fails with an AttributeError inside parsimonious' VisitationError", file=PARSER_REL, line=1, facts={"rules_evaluated": len(vals)}, witness="" if not errs else "10 IF A=<B THEN 20")
     ctx.need(len(vals) >= 50, "rule values", f"only {len(vals)} grammar rules evaluated")
+
+
+# ---------------------------------------------------------------------------
+# P14 CONFIG-VALIDATION
+
+
+@rule("P14", "CONFIG-VALIDATION: the configuration's own checks run on type-checked values (pydantic `after` validators): an ill-typed configuration ends in the documented validation error, not in a TypeError / AttributeError raised by the check itself", ["C15"], floor=1)
+def p14(ctx: Ctx):
+    py = pyfacts(ctx)
+    m = py.modules.get("coco/b09/configs.py")
+    ctx.need(m is not None, "configs.py", "module not found")
+    n = 0
+    for cn, ci in sorted(m.classes.items()):
+        for mn, fn in sorted(ci.methods.items()) + sorted(getattr(ci, "classmethods", {}).items()):
+            for d in fn.decorator_list:
+                if isinstance(d, ast.Call) and call_name(d) in ("field_validator", "model_validator", "validator"):
+                    n += 1
+                    mode = next((k.value for k in d.keywords if k.arg in ("mode", "pre")), None)
+                    early = (isinstance(mode, ast.Constant) and mode.value in ("before", "wrap", "plain", True))
+                    # a `before` validator is acceptable when it does not touch the value with type-specific operations
+                    uses_value = any(isinstance(x, (ast.Compare, ast.Subscript)) or (isinstance(x, ast.Call) and isinstance(x.func, ast.Attribute)) for x in ast.walk(fn))
+                    ok = not (early and uses_value)
+                    ctx.ob(f"{cn}.{mn}", ok, "" if ok else f"`{cn}.{mn}` is a `{unparse(mode)}` validator: it receives the raw, not yet type-checked value and applies comparisons / string methods to it, so `A$: big` or a numeric key fails inside the validator with TypeError / AttributeError instead of the configuration validation error", file="coco/b09/configs.py", line=fn.lineno, witness="" if ok else "strname_to_size: {A$: big}")
+    ctx.need(n >= 1, "configs.py", "no validator found")
